@@ -9,12 +9,33 @@ R5.2 nothing after EOD is transformed; EOD is set once  = C09-G4 second half
 R5.3 hand-over between command buffer and reader in both directions = C09-G3
 R5.4 the reader's only source of bytes is the shared buffer + raw_recv
      (single-buffer discipline)                                       = C09-G1
+R5.5 sender and reader agree on what ends a line: the reader's line pattern
+     (regular-expression syntax tree) ends a line at every LF and nowhere
+     else; every line-boundary literal the sender's stuffing uses is that
+     terminator (or terminator + "."), offsets added to a find() result equal
+     the length of the literal searched for
+R5.6 every completed line goes through handle_finished_line exactly once;
+     the line cursor / line table / EOD are written only by their owners
 """
 from __future__ import annotations
 
+import ast
+import re
+
 from ..engine import Engine
 from ..report import Report
-from . import c09
+from ..model import walk_own
+from ..resolve import Ctx
+from . import c09, common
+
+READER_MOD = 'slimta.smtp.datareader'
+READER = READER_MOD + '.DataReader'
+SENDER = 'slimta.smtp.datasender.DataSender'
+# attributes of the reader's line assembly and the methods that own them
+STATE_OWNERS = {'i': {'__init__', 'handle_finished_line'},
+                'lines': {'__init__', '_append_line',
+                          'handle_finished_line'},
+                'EOD': {'__init__', 'handle_finished_line', 'recv_piece'}}
 
 
 def run(e: Engine, rep: Report):
@@ -26,14 +47,211 @@ def run(e: Engine, rep: Report):
              'restored to io.recv_buffer)')
     rep.rule('R5.4', 'bytes reach the reader only through io.recv_buffer '
              'and IO.raw_recv')
+    rep.rule('R5.5', 'line terminator of fullline_pattern (from its regex '
+             'syntax tree) = LF with an LF-free body; every byte literal '
+             'containing CR/LF in DataSender._process_part / __iter__ is LF '
+             'or LF+"."; `find(lit) + k` has k = len(lit)')
+    rep.rule('R5.6', 'add_lines calls handle_finished_line exactly once per '
+             'match of fullline_pattern; DataReader.i / lines / EOD are '
+             'assigned only in their owner methods')
+    rep.tables.add('c05.STATE_OWNERS')
     rep.not_decided += [
         'the bijection between DataSender._process_part (dot stuffing, end '
         'marker choice) and the reader dot removal: a value-level fact '
         'about byte strings over all segmentations - not decided by this '
-        'family', 'regular-expression semantics of eod_pattern / '
-        'fullline_pattern']
+        'family; decided are the agreement of the two sides on the line '
+        'terminator and the per-line bookkeeping of the reader',
+        'the exact language of eod_pattern']
     c09.g4(e, rep, 'R5.1')
     c09.g3(e, rep, 'R5.3')
     c09.g1(e, rep, 'R5.4')
+    r55(e, rep)
+    r56(e, rep)
     rep.floor('R5.1', 4, 'sentinel tests and rewrite sites')
     rep.floor('R5.3', 5, 'hand-over obligations')
+
+
+def _module_pattern(e: Engine, mod: str, name: str):
+    """(pattern bytes, flags int, ast node) of NAME = re.compile(<const>,
+    flags) at module level, or None."""
+    m = e.p.modules.get(mod)
+    if m is None:
+        return None
+    for st in m.tree.body:
+        if isinstance(st, ast.Assign) and any(
+                isinstance(t, ast.Name) and t.id == name
+                for t in st.targets) and isinstance(st.value, ast.Call) \
+                and ast.unparse(st.value.func) == 're.compile' and \
+                st.value.args and isinstance(st.value.args[0], ast.Constant):
+            flags = 0
+            fl = st.value.args[1:] + [k.value for k in st.value.keywords]
+            for f in fl:
+                for x in ast.walk(f):
+                    if isinstance(x, ast.Attribute) and hasattr(re, x.attr):
+                        flags |= int(getattr(re, x.attr))
+            return st.value.args[0].value, flags, st
+    return None
+
+
+def line_terminator(pattern: bytes, flags: int):
+    """(terminator bytes, body may contain the terminator's last byte) of a
+    `<body>*<literal...>` pattern, from the regex syntax tree; None when the
+    pattern has another shape."""
+    from re import _parser as sp
+    from re import _constants as sc
+    items = list(sp.parse(pattern, flags))
+    lits = []
+    while items and items[-1][0] == sc.LITERAL:
+        lits.insert(0, items.pop()[1])
+    if not lits or len(items) != 1:
+        return None
+    op, av = items[0]
+    if op not in (sc.MAX_REPEAT, sc.MIN_REPEAT) or len(av[2]) != 1:
+        return None
+    bop, bav = av[2][0]
+    last = lits[-1]
+    if bop == sc.ANY:
+        contains = bool(flags & re.DOTALL) or last != 10
+    elif bop == sc.NOT_LITERAL:
+        contains = bav != last
+    else:
+        return None
+    return bytes(lits), contains, op == sc.MIN_REPEAT
+
+
+def r55(e: Engine, rep: Report):
+    got = _module_pattern(e, READER_MOD, 'fullline_pattern')
+    if got is None:
+        rep.error('anchor vanished: fullline_pattern = re.compile(...)')
+        return
+    pat, flags, node = got
+    mod = e.p.modules[READER_MOD]
+    where = READER_MOD + '.fullline_pattern'
+    lt = line_terminator(pat, flags)
+    rep.evaluations += 1
+    if lt is None:
+        rep.unknown('R5.5', where, 'shape of the line pattern',
+                    'cannot read a line terminator off %r' % pat,
+                    loc='%s:%d' % (mod.relpath, node.lineno))
+        return
+    term, body_has, lazy = lt
+    rep.check(term == b'\n' and not body_has, 'R5.5', where,
+              'a line ends at every LF and only there',
+              'the reader\'s line pattern %r ends a line at %r%s: the '
+              'sender stuffs a dot after every LF, so a dot-leading line '
+              'that follows a bare LF (or a CR LF cut between two reads) '
+              'is not recognised as a line of its own - a stuffed dot '
+              'stays in the content or the end-of-data line is missed'
+              % (pat, term, ' and lets the line body contain it'
+                 if body_has else ''),
+              loc='%s:%d' % (mod.relpath, node.lineno),
+              reason='terminator LF, LF-free body')
+    # the sender side
+    c = e.p.cls(SENDER)
+    nlit = 0
+    for mname in ('_process_part', '__iter__'):
+        m = c.methods.get(mname)
+        if m is None:
+            rep.error('anchor vanished: DataSender.' + mname)
+            continue
+        rep.functions.add(m.qname)
+        for n in ast.walk(m.node):
+            if isinstance(n, ast.Constant) and isinstance(n.value, bytes) \
+                    and (b'\n' in n.value or b'\r' in n.value):
+                nlit += 1
+                rep.evaluations += 1
+                rep.check(n.value in (term, term + b'.'), 'R5.5', m.qname,
+                          'line-boundary literal %r' % n.value,
+                          'the sender decides where a line starts with %r '
+                          'while the reader ends lines at %r: a dot that '
+                          'the reader will see at the start of a line is '
+                          'not stuffed (the reader strips a dot that '
+                          'belongs to the content, or takes ".\\r\\n" '
+                          'inside the content for the end of data)'
+                          % (n.value, term), loc=m.loc(n),
+                          reason='equals the reader\'s terminator (+ ".")')
+        # offsets added to a find() result
+        finds = {}
+        for n in walk_own(m.node):
+            if isinstance(n, ast.Assign) and isinstance(n.value, ast.Call) \
+                    and isinstance(n.value.func, ast.Attribute) and \
+                    n.value.func.attr in ('find', 'index') and \
+                    n.value.args and \
+                    isinstance(n.value.args[0], ast.Constant) and \
+                    isinstance(n.value.args[0].value, bytes) and \
+                    isinstance(n.targets[0], ast.Name):
+                finds[n.targets[0].id] = n.value.args[0].value
+        for n in walk_own(m.node):
+            if isinstance(n, ast.BinOp) and isinstance(n.op, ast.Add) and \
+                    isinstance(n.left, ast.Name) and n.left.id in finds and \
+                    isinstance(n.right, ast.Constant):
+                rep.evaluations += 1
+                lit = finds[n.left.id]
+                rep.check(n.right.value == len(lit), 'R5.5', m.qname,
+                          'offset `%s` past the literal searched for'
+                          % ast.unparse(n),
+                          'after find(%r) the sender continues at +%r '
+                          'instead of +%d: the bytes of the match are '
+                          'sent twice or skipped' % (lit, n.right.value,
+                                                     len(lit)),
+                          loc=m.loc(n), reason='+ len(literal)')
+    if nlit < 1:
+        rep.error('anchor vanished: stuffing trigger literal in DataSender')
+
+
+def r56(e: Engine, rep: Report):
+    ctx = e.method_ctx(READER, 'add_lines')
+    g = e.build(ctx, raises=lambda b, n, r: set())
+    where = ctx.func.qname
+    rep.functions.add(where)
+    loops = [n for n in g.of_kind('iter') if isinstance(n.ast, ast.For) and
+             'fullline_pattern' in ast.unparse(n.ast.iter)]
+    rep.evaluations += 1
+    if not loops:
+        rep.error('anchor vanished: loop over fullline_pattern matches in '
+                  'add_lines')
+    for lp in loops:
+        counts = common.per_iteration_counts(
+            g, lp, lambda n: 1 if n.kind in ('call', 'call_enter') and
+            e.call_name(n) == 'handle_finished_line' else 0)
+        rep.check(counts == frozenset([1]), 'R5.6', where,
+                  'every completed line is examined exactly once',
+                  'per completed line handle_finished_line runs %s times: '
+                  'a line that is not examined is neither tested for the '
+                  'end-of-data marker nor un-stuffed (its first bytes may '
+                  'have arrived in an earlier read)' % sorted(counts),
+                  loc=lp.loc(), reason='one call per match')
+    c = e.p.cls(READER)
+    nw = 0
+    for mname, m in sorted(c.methods.items()):
+        for n in walk_own(m.node):
+            tg = []
+            if isinstance(n, ast.Assign):
+                tg = n.targets
+            elif isinstance(n, (ast.AugAssign, ast.AnnAssign)):
+                tg = [n.target]
+            flat = []
+            for t in tg:
+                flat += list(t.elts) if isinstance(t, (ast.Tuple, ast.List)) \
+                    else [t]
+            for t in flat:
+                x = t
+                while isinstance(x, ast.Subscript):
+                    x = x.value
+                for x in [x]:
+                    if isinstance(x, ast.Attribute) and \
+                            isinstance(x.value, ast.Name) and \
+                            x.value.id == 'self' and x.attr in STATE_OWNERS:
+                        nw += 1
+                        rep.evaluations += 1
+                        rep.check(mname in STATE_OWNERS[x.attr], 'R5.6',
+                                  m.qname, 'write of self.%s' % x.attr,
+                                  'DataReader.%s is changed in %s, outside '
+                                  'the methods that keep cursor, line table '
+                                  'and end-of-data index consistent (%s)'
+                                  % (x.attr, mname,
+                                     ', '.join(sorted(STATE_OWNERS[x.attr]))),
+                                  loc=m.loc(n), reason='owner method')
+    if nw < 6:
+        rep.error('anchor vanished: writes of DataReader.i/lines/EOD '
+                  '(%d < 6)' % nw)
